@@ -4443,7 +4443,17 @@ def vp8ReconEnc_roots : List Entry := [
   fp! "internal/dsp.PredLuma16Direct" 0xdc6b7230aea1766f,
   fp! "internal/dsp.PredChroma8Direct" 0xadba2b5cddfb75ff,
   fp! "internal/dsp.PredLuma4Direct" 0xdd52a9768b1f82fd,
-  fp! "internal/lossy.TokenBuffer.MarkMBStart" 0xf124fe6f4541e3f9
+  fp! "internal/lossy.TokenBuffer.MarkMBStart" 0xf124fe6f4541e3f9,
+  fp! "internal/lossy.VP8Encoder.EncodeFrame" 0xa0bfd91be2c1e645,
+  fp! "internal/lossy.VP8Encoder.statLoop" 0xcb7593ee62a0c4b8,
+  fp! "internal/lossy.VP8Encoder.initPassStats" 0xbcd995291864d78f,
+  fp! "internal/lossy.passStats.computeNextQ" 0xdd3b1d96e4276079,
+  fp! "internal/lossy.VP8Encoder.adjustQuantForTarget" 0x973ba38679700ec3,
+  fp! "internal/lossy.VP8Encoder.initSegments" 0x7cfa6a4d50323136,
+  fp! "internal/lossy.VP8Encoder.setupFilterStrength" 0x4f5bf1f620ffbb1f,
+  fp! "internal/lossy.qualityToCompression" 0x83de498f69336fe0,
+  fp! "internal/lossy.qualityToQIndex" 0x8f3fd3be36d63d8f,
+  fp! "internal/lossy.getPSNR" 0xb5a62c6b1424b80d
 ]
 -- BEGIN deps vp8ReconEnc (written by tools/update_fingerprints.py — do not edit by hand)
 def vp8ReconEnc_deps : List Entry := [
@@ -4507,6 +4517,8 @@ def vp8ReconEnc_deps : List Entry := [
   dep.«internal/lossy.PickBestUVMode»,
   dep.«internal/lossy.QuantizeCoeffs»,
   dep.«internal/lossy.RDScore»,
+  dep.«internal/lossy.TokenBuffer.EmitTokens»,
+  dep.«internal/lossy.TokenBuffer.EmitTokensPartitioned»,
   dep.«internal/lossy.TokenBuffer.Reset»,
   dep.«internal/lossy.TokenBuffer.addPage»,
   dep.«internal/lossy.TokenBuffer.tokenCount»,
@@ -4516,22 +4528,45 @@ def vp8ReconEnc_deps : List Entry := [
   dep.«internal/lossy.VP8Encoder.PickBestI4ModeRD»,
   dep.«internal/lossy.VP8Encoder.PickBestI4ModeRDTrellis»,
   dep.«internal/lossy.VP8Encoder.PickBestUVModeRD»,
+  dep.«internal/lossy.VP8Encoder.analysis»,
+  dep.«internal/lossy.VP8Encoder.assembleFrame»,
   dep.«internal/lossy.VP8Encoder.collectAllStats»,
   dep.«internal/lossy.VP8Encoder.collectMBStats»,
+  dep.«internal/lossy.VP8Encoder.computeStats»,
   dep.«internal/lossy.VP8Encoder.correctDCValues»,
+  dep.«internal/lossy.VP8Encoder.emitFrame»,
+  dep.«internal/lossy.VP8Encoder.emitPartition0»,
+  dep.«internal/lossy.VP8Encoder.emitTokenPartitions»,
+  dep.«internal/lossy.VP8Encoder.encodeFrameParallel»,
   dep.«internal/lossy.VP8Encoder.encodeI16Residuals»,
   dep.«internal/lossy.VP8Encoder.encodeResiduals»,
   dep.«internal/lossy.VP8Encoder.encodeUVResiduals»,
   dep.«internal/lossy.VP8Encoder.pickBestMode»,
   dep.«internal/lossy.VP8Encoder.refreshProbas»,
-  dep.«internal/lossy.VP8Encoder.setupFilterStrength»,
+  dep.«internal/lossy.VP8Encoder.restoreSourcePixels»,
+  dep.«internal/lossy.VP8Encoder.saveSourcePixels»,
   dep.«internal/lossy.VP8Encoder.storeDiffusionErrors»,
   dep.«internal/lossy.VP8Encoder.tryI4Modes»,
   dep.«internal/lossy.VP8Encoder.updateNZContext»,
+  dep.«internal/lossy.VP8Encoder.writeCoeffProba»,
+  dep.«internal/lossy.VP8Encoder.writeFilterHeader»,
+  dep.«internal/lossy.VP8Encoder.writeMBModes»,
+  dep.«internal/lossy.VP8Encoder.writeQuantParams»,
+  dep.«internal/lossy.VP8Encoder.writeSegmentHeader»,
   dep.«internal/lossy.abs»,
+  dep.«internal/lossy.boolToIntEnc»,
   dep.«internal/lossy.branchCost»,
   dep.«internal/lossy.collectCoeffStats»,
+  dep.«internal/lossy.collectHistogramAlphaWith»,
   dep.«internal/lossy.collectLevelStats»,
+  dep.«internal/lossy.computeAlphas»,
+  dep.«internal/lossy.computeAlphasSerial»,
+  dep.«internal/lossy.computeMBAlphaDCT»,
+  dep.«internal/lossy.computeMBAlphaDCTWith»,
+  dep.«internal/lossy.computeMBAlphaDCTWorker»,
+  dep.«internal/lossy.computeMBUVAlphaDCT»,
+  dep.«internal/lossy.computeMBUVAlphaDCTWith»,
+  dep.«internal/lossy.computeMBUVAlphaDCTWorker»,
   dep.«internal/lossy.const:BDCPred»,
   dep.«internal/lossy.const:BDCPredNoLeft»,
   dep.«internal/lossy.const:BDCPredNoTop»,
@@ -4548,18 +4583,23 @@ def vp8ReconEnc_deps : List Entry := [
   dep.«internal/lossy.const:BVRPred»,
   dep.«internal/lossy.const:DCPred»,
   dep.«internal/lossy.const:HPred»,
+  dep.«internal/lossy.const:MBFeatureTreeProbs»,
   dep.«internal/lossy.const:NumBModes»,
   dep.«internal/lossy.const:NumBands»,
   dep.«internal/lossy.const:NumCTX»,
   dep.«internal/lossy.const:NumMBSegments»,
+  dep.«internal/lossy.const:NumModeLFDeltas»,
   dep.«internal/lossy.const:NumPredModes»,
   dep.«internal/lossy.const:NumProbas»,
+  dep.«internal/lossy.const:NumRefLFDeltas»,
   dep.«internal/lossy.const:NumTypes»,
   dep.«internal/lossy.const:TMPred»,
   dep.«internal/lossy.const:UOff»,
   dep.«internal/lossy.const:VOff»,
   dep.«internal/lossy.const:VPred»,
   dep.«internal/lossy.const:YOff»,
+  dep.«internal/lossy.const:YUVSize»,
+  dep.«internal/lossy.const:alphaScale»,
   dep.«internal/lossy.const:derrC1»,
   dep.«internal/lossy.const:derrC2»,
   dep.«internal/lossy.const:derrDScale»,
@@ -4570,7 +4610,11 @@ def vp8ReconEnc_deps : List Entry := [
   dep.«internal/lossy.const:flatnessPenalty»,
   dep.«internal/lossy.const:fstrengthCutoff»,
   dep.«internal/lossy.const:maxAlpha»,
+  dep.«internal/lossy.const:maxCoeffThresh»,
+  dep.«internal/lossy.const:maxIntra16Mode»,
   dep.«internal/lossy.const:maxItersKMeans»,
+  dep.«internal/lossy.const:maxPartition0Size»,
+  dep.«internal/lossy.const:maxPartitionSize»,
   dep.«internal/lossy.const:minRefreshCount»,
   dep.«internal/lossy.const:rdDistoMult»,
   dep.«internal/lossy.const:tokenPageSize»,
@@ -4580,12 +4624,18 @@ def vp8ReconEnc_deps : List Entry := [
   dep.«internal/lossy.encodeUVResidualsParallel»,
   dep.«internal/lossy.fastVariableLevelCost»,
   dep.«internal/lossy.filterStrengthFromDelta»,
+  dep.«internal/lossy.generateI16Prediction»,
+  dep.«internal/lossy.getBoolWriter»,
   dep.«internal/lossy.getMaxI4RDModes»,
+  dep.«internal/lossy.getParallelState»,
+  dep.«internal/lossy.i4SubtreeContains»,
+  dep.«internal/lossy.initRowWorker»,
   dep.«internal/lossy.isFlat»,
   dep.«internal/lossy.isFlatSource16»,
   dep.«internal/lossy.maxInt»,
   dep.«internal/lossy.needsLeft4»,
   dep.«internal/lossy.needsTop4»,
+  dep.«internal/lossy.newRowSync»,
   dep.«internal/lossy.nzCountACSSE2»,
   dep.«internal/lossy.optimizeProba»,
   dep.«internal/lossy.pickBestI16ModeRDParallel»,
@@ -4593,7 +4643,8 @@ def vp8ReconEnc_deps : List Entry := [
   dep.«internal/lossy.pickBestI4ModeRDTrellisParallel»,
   dep.«internal/lossy.pickBestModeParallel»,
   dep.«internal/lossy.pickBestUVModeRDParallel»,
-  dep.«internal/lossy.qualityToCompression»,
+  dep.«internal/lossy.putBoolWriter»,
+  dep.«internal/lossy.putParallelState»,
   dep.«internal/lossy.quantizeACAVX2»,
   dep.«internal/lossy.quantizeACSSE2»,
   dep.«internal/lossy.quantizeCoeffsGo»,
@@ -4605,16 +4656,21 @@ def vp8ReconEnc_deps : List Entry := [
   dep.«internal/lossy.updateNZContextParallel»,
   dep.«internal/lossy.var:CoeffsProba0»,
   dep.«internal/lossy.var:CoeffsUpdateProba»,
+  dep.«internal/lossy.var:ErrPartition0Overflow»,
+  dep.«internal/lossy.var:ErrPartitionOverflow»,
   dep.«internal/lossy.var:KAcTable»,
   dep.«internal/lossy.var:KAcTable2»,
+  dep.«internal/lossy.var:KBModesProba»,
   dep.«internal/lossy.var:KBands»,
   dep.«internal/lossy.var:KCat3»,
   dep.«internal/lossy.var:KCat4»,
   dep.«internal/lossy.var:KCat5»,
   dep.«internal/lossy.var:KCat6»,
   dep.«internal/lossy.var:KDcTable»,
+  dep.«internal/lossy.var:KYModesIntra4»,
   dep.«internal/lossy.var:KZigzag»,
   dep.«internal/lossy.var:VP8FixedCostsI4»,
+  dep.«internal/lossy.var:boolWriterPool»,
   dep.«internal/lossy.var:kBiasMatrices»,
   dep.«internal/lossy.var:kFreqSharpening»,
   dep.«internal/lossy.var:kLevelsFromDelta»,
@@ -4622,8 +4678,13 @@ def vp8ReconEnc_deps : List Entry := [
   dep.«internal/lossy.var:kWeightTrellis»,
   dep.«internal/lossy.var:modeFixedCost16»,
   dep.«internal/lossy.var:modeFixedCostUV»,
+  dep.«internal/lossy.var:parallelPool»,
   dep.«internal/lossy.var:vp8LevelCodes»,
-  dep.«internal/lossy.variableLevelCost»
+  dep.«internal/lossy.variableLevelCost»,
+  dep.«internal/lossy.writeI16Mode»,
+  dep.«internal/lossy.writeI4ModeBits»,
+  dep.«internal/lossy.writeSegmentID»,
+  dep.«internal/lossy.writeUVMode»
 ]
 -- END deps vp8ReconEnc
 def vp8ReconEnc : List Entry := vp8ReconEnc_roots ++ vp8ReconEnc_deps
@@ -5146,7 +5207,7 @@ def extra_C02_deps : List Entry := [
 def extra_C02 : List Entry := extra_C02_roots ++ extra_C02_deps
 
 def expected_C02 : List Entry :=
-  writer ++ boolWriter ++ vp8Syntax ++ vp8lEntropyEnc ++ alphaEnc ++ codecFront ++ vp8ReconDec ++ codecFrontL ++ vp8lEntropyDec ++ vp8lFastPaths ++ lTransformInv ++ extra_C02
+  writer ++ boolWriter ++ vp8Syntax ++ vp8lEntropyEnc ++ alphaEnc ++ codecFront ++ vp8ReconDec ++ codecFrontL ++ vp8lEntropyDec ++ vp8lFastPaths ++ lTransformInv ++ partition ++ vp8ReconEnc ++ extra_C02
 
 def stale_C02 : List String := stale expected_C02
 
@@ -5440,7 +5501,12 @@ def extra_C11_roots : List Entry := [
   fp! "internal/lossless.newCostManager" 0x8bd12dc544d6ec27,
   fp! "internal/lossless.paletteCodeBits" 0xca5341b0d315af09,
   fp! "internal/lossless.Decoder.readTransform" 0xa7604f17566de0d1,
-  fp! "internal/lossless.traceBackwards" 0x1e9c5d626dec81b0
+  fp! "internal/lossless.traceBackwards" 0x1e9c5d626dec81b0,
+  fp! "internal/lossy.VP8Encoder.EncodeFrame" 0xa0bfd91be2c1e645,
+  fp! "internal/lossy.VP8Encoder.statLoop" 0xcb7593ee62a0c4b8,
+  fp! "internal/lossy.VP8Encoder.initPassStats" 0xbcd995291864d78f,
+  fp! "internal/lossy.passStats.computeNextQ" 0xdd3b1d96e4276079,
+  fp! "internal/lossy.VP8Encoder.adjustQuantForTarget" 0x973ba38679700ec3
 ]
 -- BEGIN deps extra_C11 (written by tools/update_fingerprints.py — do not edit by hand)
 def extra_C11_deps : List Entry := [
@@ -5596,9 +5662,14 @@ def extra_C11_deps : List Entry := [
   dep.«internal/lossy.VP8Encoder.PickBestI4ModeRD»,
   dep.«internal/lossy.VP8Encoder.PickBestI4ModeRDTrellis»,
   dep.«internal/lossy.VP8Encoder.PickBestUVModeRD»,
+  dep.«internal/lossy.VP8Encoder.assembleFrame»,
   dep.«internal/lossy.VP8Encoder.buildSegmentHeader»,
   dep.«internal/lossy.VP8Encoder.collectMBStats»,
+  dep.«internal/lossy.VP8Encoder.computeStats»,
   dep.«internal/lossy.VP8Encoder.correctDCValues»,
+  dep.«internal/lossy.VP8Encoder.emitFrame»,
+  dep.«internal/lossy.VP8Encoder.emitPartition0»,
+  dep.«internal/lossy.VP8Encoder.emitTokenPartitions»,
   dep.«internal/lossy.VP8Encoder.encodeI16Residuals»,
   dep.«internal/lossy.VP8Encoder.encodeI4Residuals»,
   dep.«internal/lossy.VP8Encoder.encodeResiduals»,
@@ -5608,15 +5679,23 @@ def extra_C11_deps : List Entry := [
   dep.«internal/lossy.VP8Encoder.reconstructMB»,
   dep.«internal/lossy.VP8Encoder.recordMBTokens»,
   dep.«internal/lossy.VP8Encoder.refreshProbas»,
+  dep.«internal/lossy.VP8Encoder.restoreSourcePixels»,
+  dep.«internal/lossy.VP8Encoder.saveSourcePixels»,
   dep.«internal/lossy.VP8Encoder.setSegmentParams»,
+  dep.«internal/lossy.VP8Encoder.setSegmentProbas»,
   dep.«internal/lossy.VP8Encoder.setupFilterStrength»,
   dep.«internal/lossy.VP8Encoder.simplifySegments»,
   dep.«internal/lossy.VP8Encoder.storeDiffusionErrors»,
   dep.«internal/lossy.VP8Encoder.tryI4Modes»,
   dep.«internal/lossy.VP8Encoder.tryI4ModesRD»,
   dep.«internal/lossy.VP8Encoder.updateNZContext»,
+  dep.«internal/lossy.VP8Encoder.writeCoeffProba»,
+  dep.«internal/lossy.VP8Encoder.writeFilterHeader»,
+  dep.«internal/lossy.VP8Encoder.writeQuantParams»,
+  dep.«internal/lossy.VP8Encoder.writeSegmentHeader»,
   dep.«internal/lossy.abs»,
   dep.«internal/lossy.assignSegments»,
+  dep.«internal/lossy.boolToIntEnc»,
   dep.«internal/lossy.branchCost»,
   dep.«internal/lossy.checkMode»,
   dep.«internal/lossy.clampInt»,
@@ -5676,6 +5755,8 @@ def extra_C11_deps : List Entry := [
   dep.«internal/lossy.const:maxCoeffThresh»,
   dep.«internal/lossy.const:maxIntra16Mode»,
   dep.«internal/lossy.const:maxItersKMeans»,
+  dep.«internal/lossy.const:maxPartition0Size»,
+  dep.«internal/lossy.const:maxPartitionSize»,
   dep.«internal/lossy.const:minRefreshCount»,
   dep.«internal/lossy.const:rdDistoMult»,
   dep.«internal/lossy.const:tokenPageSize»,
@@ -5688,8 +5769,10 @@ def extra_C11_deps : List Entry := [
   dep.«internal/lossy.exportParallel»,
   dep.«internal/lossy.fastVariableLevelCost»,
   dep.«internal/lossy.filterStrengthFromDelta»,
+  dep.«internal/lossy.getBoolWriter»,
   dep.«internal/lossy.getImportUVWorker»,
   dep.«internal/lossy.getMaxI4RDModes»,
+  dep.«internal/lossy.getPSNR»,
   dep.«internal/lossy.getParallelState»,
   dep.«internal/lossy.i4SubtreeContains»,
   dep.«internal/lossy.imageHasAlpha»,
@@ -5708,6 +5791,7 @@ def extra_C11_deps : List Entry := [
   dep.«internal/lossy.pickBestI4ModeRDTrellisParallel»,
   dep.«internal/lossy.pickBestModeParallel»,
   dep.«internal/lossy.pickBestUVModeRDParallel»,
+  dep.«internal/lossy.putBoolWriter»,
   dep.«internal/lossy.putParallelState»,
   dep.«internal/lossy.qualityToCompression»,
   dep.«internal/lossy.quantizeACAVX2»,
@@ -5724,6 +5808,8 @@ def extra_C11_deps : List Entry := [
   dep.«internal/lossy.updateNZContextParallel»,
   dep.«internal/lossy.var:CoeffsProba0»,
   dep.«internal/lossy.var:CoeffsUpdateProba»,
+  dep.«internal/lossy.var:ErrPartition0Overflow»,
+  dep.«internal/lossy.var:ErrPartitionOverflow»,
   dep.«internal/lossy.var:KAcTable»,
   dep.«internal/lossy.var:KAcTable2»,
   dep.«internal/lossy.var:KBModesProba»,
@@ -5736,6 +5822,7 @@ def extra_C11_deps : List Entry := [
   dep.«internal/lossy.var:KYModesIntra4»,
   dep.«internal/lossy.var:KZigzag»,
   dep.«internal/lossy.var:VP8FixedCostsI4»,
+  dep.«internal/lossy.var:boolWriterPool»,
   dep.«internal/lossy.var:importUVWorkerPool»,
   dep.«internal/lossy.var:kBiasMatrices»,
   dep.«internal/lossy.var:kFreqSharpening»,
@@ -6186,7 +6273,7 @@ def extra_C16_deps : List Entry := [
 def extra_C16 : List Entry := extra_C16_roots ++ extra_C16_deps
 
 def expected_C16 : List Entry :=
-  config ++ parser ++ demux ++ extra_C16
+  config ++ parser ++ demux ++ muxer ++ extra_C16
 
 def stale_C16 : List String := stale expected_C16
 
@@ -6420,7 +6507,7 @@ def extra_C17_deps : List Entry := [
 def extra_C17 : List Entry := extra_C17_roots ++ extra_C17_deps
 
 def expected_C17 : List Entry :=
-  config ++ parser ++ demux ++ extra_C17
+  config ++ parser ++ demux ++ muxer ++ extra_C17
 
 def stale_C17 : List String := stale expected_C17
 
